@@ -156,12 +156,22 @@ func runC09(c *core.Ctx) {
 				if i+1 < len(jstack) {
 					next = jstack[i+1]
 				}
-				hmin, hmax := core.PathCount(h, func(ins ssa.Instruction) int {
+				// the edge on which the job is found nil (closed queue) carries no job: it does not count
+				frame := jstack[:i+1]
+				nilEdge := func(b, s2 *ssa.BasicBlock) bool {
+					for _, cnd := range core.EdgeFactsOn(b, s2) {
+						if m, isM := core.AsCmp(cnd); isM && m.Op == token.EQL && core.IsNilConst(m.Y) && isJob(m.X, frame) {
+							return true
+						}
+					}
+					return false
+				}
+				hmin, hmax := core.PathCountEdges(h.Blocks[0], nil, func(ins ssa.Instruction) int {
 					if ins == next {
 						return 1
 					}
 					return 0
-				}, nil)
+				}, nilEdge)
 				if hmin != 1 || hmax != 1 {
 					min, max = 0, hmax
 				}
